@@ -1,19 +1,122 @@
 //@ unit jsstring primary=C16 props=C16,C08
 // Unit jsstring: crates/sourcemap-writer/src/js_string_writer.rs  JsStringWriter (template-literal layer of serverGraphqlOutput)
+//  C16: what JsStringWriter::write appends for a chunk is js_esc(indented(chunk)) - the chunk with deferred indentation,
+//  with every backslash and backtick escaped and the '{' of a "${" escaped - and (lemma) the cooked value of that text as a
+//  JavaScript template-literal body is exactly the indented chunk, for any text without carriage returns.
 #![feature(pattern, allocator_api)]
 #![allow(unused)]
 use vstd::prelude::*;
 use vstd::std_specs::cmp::PartialEqSpec;
 verus! {
-//@ fragment printer_base.rs
-//@ fragment writer_model.rs
+//@ deps
+//@ include stdlib_checker.rs
 //@ include stdlib_repeat.rs
+//@ fragment indent_model.rs
+//@ fragment js_model.rs
+/// A-LIMIT (trusted): a Rust String / str holds at most isize::MAX bytes
+#[verifier::external_body]
+pub proof fn axiom_text_limit(s: Seq<char>)
+    ensures s.len() <= isize::MAX
+{}
+use crate::HasPos as _;
 
-use crate::sourcemap_writer::writer::SourceMapWriter;
-use crate::nitrogql_ast::base::HasPos;
+//@ extract crates/ast/src/base.rs :: struct Pos
+//@   derive_remove Debug,Hash,PartialEq,Eq
+//@ end
+//@ extract crates/ast/src/base.rs :: trait HasPos
+//@ end
 
 //@ extract crates/sourcemap-writer/src/js_string_writer.rs :: struct JsStringWriter
 //@   pubfields
+//@ end
+impl JsStringWriter<'_> {
+    pub open spec fn wf(&self) -> bool { self.indent_str@ == spaces(self.indent as nat) }
+}
+
+//@ lemma [C16.jsstring.write_step] lemma_js_write_step
+pub proof fn lemma_js_write_step(a: Seq<char>, nl: bool, pend: bool, ind: nat, line: Seq<char>)
+    requires nl || a.len() == 0, !line.contains('\n')
+    ensures ({
+        let n = if nl { seq!['\n'] } else { Seq::<char>::empty() };
+        let x2 = if line.len() == 0 { Seq::<char>::empty() } else if pend { spaces(ind) + line } else { line };
+        let e2 = if line.len() == 0 { Seq::<char>::empty() } else if pend { spaces(ind) + js_esc(line, false) } else { js_esc(line, false) };
+        js_esc(a + (n + x2), false) == js_esc(a, false) + n + e2
+    })
+{
+    let n = if nl { seq!['\n'] } else { Seq::<char>::empty() };
+    let sp = if line.len() > 0 && pend { spaces(ind) } else { Seq::<char>::empty() };
+    let l = if line.len() == 0 { Seq::<char>::empty() } else { line };
+    let x2 = if line.len() == 0 { Seq::<char>::empty() } else if pend { spaces(ind) + line } else { line };
+    let e2 = if line.len() == 0 { Seq::<char>::empty() } else if pend { spaces(ind) + js_esc(line, false) } else { js_esc(line, false) };
+    // 1: the line feed
+    let f0 = dollar_after(a, false);
+    lemma_js_esc_concat(a, n, false);
+    lemma_js_esc_plain(n, f0);
+    let a1 = a + n;
+    assert(!dollar_after(a1, false)) by { if nl { assert(a1.last() == '\n'); } else { assert(a1 =~= a); } }
+    // 2: the indentation
+    lemma_js_esc_concat(a1, sp, false);
+    lemma_js_esc_plain(sp, false);
+    let a2 = a1 + sp;
+    assert(!dollar_after(a2, false)) by { if sp.len() > 0 { assert(a2.last() == ' '); } else { assert(a2 =~= a1); } }
+    // 3: the line itself
+    lemma_js_esc_concat(a2, l, false);
+    assert(js_esc(l, false) =~= if line.len() == 0 { Seq::<char>::empty() } else { js_esc(line, false) });
+    assert(a + (n + x2) =~= a2 + l);
+    assert(sp + js_esc(l, false) =~= e2);
+    assert(js_esc(a2 + l, false) =~= js_esc(a, false) + n + (sp + js_esc(l, false)));
+}
+
+//@ extract crates/sourcemap-writer/src/js_string_writer.rs :: impl JsStringWriter<'_>
+//@   fn new
+//@   ret r
+//@   ensures [C16.jsstring.new] r.wf() && r.buffer@ == old(buffer)@ + seq!['`', '\n'] && !r.has_indent_flag && r.indent == 0
+//@   prefix proof { reveal_strlit("`\n"); assert(spaces(0) =~= Seq::<char>::empty()); }
+//@ end
+
+//@ extract crates/sourcemap-writer/src/js_string_writer.rs :: impl SourceMapWriter for JsStringWriter<'_>
+//@   rewrite T19 1 "impl SourceMapWriter for JsStringWriter<'_>" => "impl JsStringWriter<'_> /* vx:T19 trait impl -> inherent impl (same bodies; `requires` is not allowed on trait impls) */"
+//@   wrap_chain vx_split_char split
+//@   enumerate_for
+//@   fn indent
+//@   requires [C16.jsstring.indent.pre_wf] old(self).wf()
+//@   ensures [C16.jsstring.indent.wf] final(self).wf() && final(self).indent == old(self).indent + 2
+//@   ensures [C16.jsstring.indent.frame] final(self).buffer@ == old(self).buffer@ && final(self).has_indent_flag == old(self).has_indent_flag
+//@   prefix proof { crate::axiom_text_limit(self.indent_str@); reveal_strlit(" "); }
+//@   suffix [C16.jsstring.indent.wf#spaces] proof { assert(self.indent_str@ =~= spaces(self.indent as nat)); }
+//@   fn dedent
+//@   requires [C16.jsstring.dedent.pre_wf] old(self).wf()
+//@   ensures [C16.jsstring.dedent.wf] final(self).wf() && final(self).indent == (if old(self).indent >= 2 { old(self).indent - 2 } else { 0 })
+//@   ensures [C16.jsstring.dedent.frame] final(self).buffer@ == old(self).buffer@ && final(self).has_indent_flag == old(self).has_indent_flag
+//@   prefix proof { reveal_strlit(" "); }
+//@   suffix [C16.jsstring.dedent.wf#spaces] proof { assert(self.indent_str@ =~= spaces(self.indent as nat)); }
+//@   fn write_for
+//@   requires [C16.jsstring.write_for.pre_wf] old(self).wf()
+//@   ensures [C16.jsstring.write_for.same_as_write] final(self).wf() && final(self).buffer@ == old(self).buffer@ + js_esc(indented(chunk@, old(self).indent as nat, old(self).has_indent_flag), false) && final(self).has_indent_flag == pending_after(chunk@, old(self).has_indent_flag) && final(self).indent == old(self).indent
+//@   fn write
+//@   requires [C16.jsstring.write.pre_wf] old(self).wf()
+//@   ensures [C16.jsstring.write.wf] final(self).wf()
+//@   ensures [C16.jsstring.write.text] final(self).buffer@ == old(self).buffer@ + js_esc(indented(chunk@, old(self).indent as nat, old(self).has_indent_flag), false)
+//@   ensures [C16.jsstring.write.pending] final(self).has_indent_flag == pending_after(chunk@, old(self).has_indent_flag)
+//@   ensures [C16.jsstring.write.frame] final(self).indent == old(self).indent && final(self).indent_str == old(self).indent_str
+//@   loops 2
+//@   loop 0 for_continue
+//@   loop 0 iter_name it
+//@   loop 1 iter_name jt
+//@   loop 0 invariant [C16.jsstring.write.inv.pieces] crate::join_sep(crate::str_views(it.seq()), '\n') == chunk@ && (forall|i: int| 0 <= i < it.seq().len() ==> !(#[trigger] it.seq()[i])@.contains('\n')) && 0 <= it.index@ <= it.seq().len() && it.seq().len() >= 1 && it.seq().len() <= usize::MAX && idx__vx == it.index@
+//@   loop 0 invariant [C16.jsstring.write.inv.text] self.wf() && self.buffer@ == old(self).buffer@ + js_esc(indented(crate::joined_upto(crate::str_views(it.seq()), '\n', it.index@ as int), old(self).indent as nat, old(self).has_indent_flag), false) && self.has_indent_flag == pending_after(crate::joined_upto(crate::str_views(it.seq()), '\n', it.index@ as int), old(self).has_indent_flag)
+//@   loop 0 invariant [C16.jsstring.write.inv.frame] self.indent == old(self).indent && self.indent_str == old(self).indent_str
+//@   loop 0 body_invariant [C16.jsstring.write.body.pre] crate::join_sep(crate::str_views(it.seq()), '\n') == chunk@ && (forall|i: int| 0 <= i < it.seq().len() ==> !(#[trigger] it.seq()[i])@.contains('\n')) && 0 <= it.index@ < it.seq().len() && it.seq().len() <= usize::MAX && idx__vx == it.index@ && line == it.seq()[it.index@ as int] && self.wf() && self.buffer@ == old(self).buffer@ + js_esc(indented(crate::joined_upto(crate::str_views(it.seq()), '\n', it.index@ as int), old(self).indent as nat, old(self).has_indent_flag), false) && self.has_indent_flag == pending_after(crate::joined_upto(crate::str_views(it.seq()), '\n', it.index@ as int), old(self).has_indent_flag) && self.indent == old(self).indent && self.indent_str == old(self).indent_str
+//@   loop 0 body_ensures [C16.jsstring.write.body.step] idx__vx == it.index@ + 1 && self.wf() && self.buffer@ == old(self).buffer@ + js_esc(indented(crate::joined_upto(crate::str_views(it.seq()), '\n', it.index@ as int + 1), old(self).indent as nat, old(self).has_indent_flag), false) && self.has_indent_flag == pending_after(crate::joined_upto(crate::str_views(it.seq()), '\n', it.index@ as int + 1), old(self).has_indent_flag) && self.indent == old(self).indent && self.indent_str == old(self).indent_str
+//@   loop 0 body_prefix let ghost k = it.index@ as int; let ghost p = crate::str_views(it.seq()); let ghost b0 = self.buffer@; let ghost pend0 = old(self).has_indent_flag; let ghost ind = old(self).indent as nat; let ghost pend = if k > 0 { true } else { pend0 }; proof { assert(p[k] == line@); crate::lemma_write_step(p, k, ind, pend0); crate::lemma_js_write_step(indented(crate::joined_upto(p, '\n', k), ind, pend0), k > 0, pend, ind, line@); assert(b0.push('\n') =~= b0 + seq!['\n']); if k == 0 { assert(crate::joined_upto(p, '\n', 0) =~= Seq::<char>::empty()); } }
+//@   hint before 0 "let mut dollar_flag = false;" :: [C16.jsstring.write.body.step#line_start] let ghost b2 = self.buffer@; proof { assert(b2 =~= b0 + (if k > 0 { seq!['\n'] } else { Seq::<char>::empty() }) + (if pend { spaces(ind) } else { Seq::<char>::empty() })); assert(js_esc(line@.take(0), false) =~= Seq::<char>::empty()); assert(b2 + Seq::<char>::empty() =~= b2); }
+//@   loop 1 invariant [C16.jsstring.write.chars.iter] jt.seq() == line@ && 0 <= jt.index@ <= line@.len()
+//@   loop 1 invariant [C16.jsstring.write.chars.text] self.buffer@ == b2 + js_esc(line@.take(jt.index@ as int), false) && dollar_flag == crate::dollar_after(line@.take(jt.index@ as int), false)
+//@   loop 1 invariant [C16.jsstring.write.chars.frame] self.wf() && !self.has_indent_flag && self.indent == old(self).indent && self.indent_str == old(self).indent_str
+//@   loop 1 invariant [C16.jsstring.write.chars.outer] k == it.index@ && 0 <= k < it.seq().len() && it.seq().len() <= usize::MAX && p == crate::str_views(it.seq()) && line == it.seq()[k] && !line@.contains('\n') && idx__vx == k + 1 && pend0 == old(self).has_indent_flag && ind == old(self).indent as nat && pend == (if k > 0 { true } else { pend0 }) && b0 == old(self).buffer@ + js_esc(indented(crate::joined_upto(p, '\n', k), ind, pend0), false) && b2 == b0 + (if k > 0 { seq!['\n'] } else { Seq::<char>::empty() }) + (if pend { spaces(ind) } else { Seq::<char>::empty() }) && line@.len() > 0 && crate::join_sep(crate::str_views(it.seq()), '\n') == chunk@ && (forall|i: int| 0 <= i < it.seq().len() ==> !(#[trigger] it.seq()[i])@.contains('\n'))
+//@   loop 1 prefix let ghost bi = self.buffer@; proof { let i = jt.index@ as int; crate::lemma_js_esc_push(line@.take(i), c, false); assert(line@.take(i + 1) =~= line@.take(i).push(c)); reveal_strlit("\\\\"); reveal_strlit("\\`"); reveal_strlit("\\{"); }
+//@   loop 1 suffix [C16.jsstring.write.chars.text#step] proof { assert(self.buffer@ =~= bi + crate::esc1(c, crate::dollar_after(line@.take(jt.index@ as int), false))); }
+//@   hint after 0 "dollar_flag = c == '$';\n            }" :: [C16.jsstring.write.body.step#line_end] proof { assert(line@.take(line@.len() as int) =~= line@); assert(p[k] == line@); crate::lemma_write_step(p, k, ind, pend0); let aa = indented(crate::joined_upto(p, '\n', k), ind, pend0); if k == 0 { assert(crate::joined_upto(p, '\n', 0) =~= Seq::<char>::empty()); } crate::lemma_js_write_step(aa, k > 0, pend, ind, line@); let n = if k > 0 { seq!['\n'] } else { Seq::<char>::empty() }; let x2 = if pend { spaces(ind) + line@ } else { line@ }; assert(indented(crate::joined_upto(p, '\n', k + 1), ind, pend0) =~= aa + (n + x2)); assert(self.buffer@ =~= old(self).buffer@ + (js_esc(aa, false) + n + (if pend { spaces(ind) + js_esc(line@, false) } else { js_esc(line@, false) }))); assert(self.buffer@ =~= old(self).buffer@ + js_esc(indented(crate::joined_upto(p, '\n', k + 1), ind, pend0), false)); }
 //@ end
 
 //@ canary
